@@ -608,6 +608,7 @@ pub mod verif_hooks {
     thread_local! {
         static LOOPBACK_BINDS: Cell<bool> = const { Cell::new(false) };
         static FAILING_PORTS: RefCell<Vec<u16>> = const { RefCell::new(Vec::new()) };
+        static FAILING_WILDCARDS: Cell<(bool, bool)> = const { Cell::new((false, false)) };
         static SEND_LOG: RefCell<Vec<SendRecord>> = const { RefCell::new(Vec::new()) };
     }
 
@@ -620,6 +621,13 @@ pub mod verif_hooks {
         FAILING_PORTS.with(|c| *c.borrow_mut() = failing_ports.to_vec());
     }
 
+    /// While loopback binds are on (see [`set_loopback_binds`]): whether binding the wildcard
+    /// address with port `0` (`0.0.0.0:0` / `[::]:0`, the builder's built-in sockets) is made
+    /// to fail, per family (IPv4, IPv6).
+    pub fn set_failing_wildcards(v4: bool, v6: bool) {
+        FAILING_WILDCARDS.with(|c| c.set((v4, v6)));
+    }
+
     /// Returns and clears the `IpSender::poll_send` calls made on this thread.
     pub fn take_send_log() -> Vec<SendRecord> {
         SEND_LOG.with(|c| std::mem::take(&mut *c.borrow_mut()))
@@ -629,7 +637,13 @@ pub mod verif_hooks {
         if !LOOPBACK_BINDS.with(|c| c.get()) {
             return addr;
         }
-        let fails = FAILING_PORTS.with(|c| c.borrow().contains(&addr.port()));
+        let wildcard = addr.ip().is_unspecified() && addr.port() == 0;
+        let (fail_v4, fail_v6) = FAILING_WILDCARDS.with(|c| c.get());
+        let fails = if wildcard {
+            if addr.is_ipv4() { fail_v4 } else { fail_v6 }
+        } else {
+            FAILING_PORTS.with(|c| c.borrow().contains(&addr.port()))
+        };
         match addr {
             SocketAddr::V4(_) if fails => {
                 SocketAddr::V4(SocketAddrV4::new(Ipv4Addr::new(192, 0, 2, 1), 0))
